@@ -1,3 +1,4 @@
 //! generators: exhaustive enumerators and proptest strategies
 pub mod dsets;
 pub mod dsyms;
+pub mod covers;
